@@ -255,6 +255,16 @@ class Tr:
                     self.die(f"{what}: probing with {probe!r} raised {type(e).__name__}: {e}")
                 if not err:
                     self.die(f"{what}: {probe!r} is accepted for a dict-valued field and becomes {val!r} (the model accepts objects only)")
+        if "KFloat" in kind:
+            # Parse.v: a float field holds a finite number (JDec/JInt): an infinity is no value of the model
+            for probe in (float("inf"), "inf", "1e999", float("nan")):
+                v = [probe] if f.shape == pf.SHAPE_LIST else probe
+                try:
+                    val, err = f.validate(v, {}, loc=f.alias, cls=cls)
+                except Exception as e:  # noqa: BLE001
+                    self.die(f"{what}: probing with {v!r} raised {type(e).__name__}: {e}")
+                if not err:
+                    self.die(f"{what}: {v!r} is accepted for a float field and becomes {val!r} (the model holds finite numbers only)")
         if "KInt false" in kind:
             # Parse.v: a non-strict int takes a whole number in any spelling and rejects one with a fractional
             # part (pydantic alone would truncate it).  Probed on the live field, pre-validators included.
@@ -385,6 +395,14 @@ class Tr:
     def cls(self, c):
         cfg = c.__config__
         extra_forbid = cfg.extra == pydantic.Extra.forbid
+        # Parse.v (parse_cls): a model is built from an object and from nothing else (pydantic alone would run
+        # dict() over the value: a list of [key, value] pairs would pass for the object)
+        for probe in ([["name", "x"]], [], "ab", (("name", "x"),)):
+            try:
+                got = c.validate(probe)
+            except (pydantic.ValidationError, pydantic.errors.PydanticTypeError, pydantic.errors.PydanticValueError, TypeError, ValueError):
+                continue
+            self.die(f"{c.__name__}: {probe!r} is accepted where an object is expected and becomes {got!r} (the model accepts objects only)")
         fields = [self.field(c, f) for f in c.__fields__.values()]
         vals = self.validators(c)
         return (f" ({q(c.__name__)},\n  mkCls {b(extra_forbid)} {b(bool(cfg.frozen))} {self.scope(c._template_variable_scope)}\n"
